@@ -12,7 +12,9 @@ package faultstore
 import (
 	"context"
 	"fmt"
+	"runtime"
 	"sync"
+	"time"
 
 	"github.com/google/badwolf/storage"
 	"github.com/google/badwolf/triple"
@@ -176,6 +178,7 @@ func (s *Store) GraphNames(ctx context.Context, names chan<- string) error {
 func stream[T any](s *Store, c *Call, mode string, j int, out chan<- T, call func(chan<- T) error) error {
 	if mode == "before" {
 		close(out)
+		afterClose()
 		return ErrInjected
 	}
 	in := make(chan T)
@@ -202,9 +205,18 @@ func stream[T any](s *Store, c *Call, mode string, j int, out chan<- T, call fun
 	close(out)
 	s.setDelivered(c, n, ierr != nil)
 	if mode == "after" {
+		afterClose()
 		return ErrInjected
 	}
 	return ierr
+}
+
+// afterClose: a driver does some work between closing its channel and returning (it releases a lock, a connection,
+// a cursor). A caller that reads the error of the call as soon as the channel is closed, without waiting for the call
+// to return, only loses the error when that takes a moment.
+func afterClose() {
+	runtime.Gosched()
+	time.Sleep(300 * time.Microsecond)
 }
 
 type graph struct {
